@@ -1,7 +1,7 @@
 """C11 - arguments are evaluated once, in order; lazy ones only on demand."""
 from vlib.pyvc.unit import contract_unit
 from props._common import pyvc_units
-from contracts import runner, system, evalglue
+from contracts import runner, system, evalglue, lazyops, specs
 
 LEVEL = 'proof'
 TECHNIQUE = ('pyvc with a ghost call log: the real choose_overload must '
@@ -27,4 +27,9 @@ def units(ctx):
           for c in runner.choose_contracts(ctx.tier)]
     us += pyvc_units(system.contracts(), 'C11', system.setup)
     us += pyvc_units(evalglue.contracts(), 'C11', evalglue.setup)
+    us += pyvc_units(lazyops.contracts(), 'C11', lazyops.setup)
+    # the laziness set of choose_overload is keyed by call-site names: the
+    # keyword mapping returned by map_args must use the same keys
+    us += [contract_unit(c, world_setup=specs.setup)
+           for c in specs.binding_contracts(ctx.tier)]
     return us
